@@ -8,8 +8,13 @@ budget = sys.argv[4] if len(sys.argv) > 4 else '30'
 out = subprocess.run(['/verif/tools/seedcheck.sh', wt, k, prop, budget], capture_output=True, text=True).stdout
 print(out[-1800:])
 src = f'{wt}/seeded/{k}'
-dst = f'/verif/seeded/{prop}-{k}'
+dst = f'/verif/seeded/{prop}-{int(k) + int(os.environ.get("SEED_OFFSET", "0"))}'
 os.makedirs(dst, exist_ok=True)
+old_note = None
+try:
+    old_note = json.load(open(os.path.join(dst, 'meta.json'))).get('verified_by_me', {}).get('note')
+except (OSError, ValueError):
+    pass
 for name in os.listdir(src):
     if name.startswith(('patch', 'demo', 'meta')):
         shutil.copy(os.path.join(src, name), dst)
@@ -29,6 +34,8 @@ meta['verified_by_me'] = {
     'check_detects': detected,
     'check_output': check[:1500],
 }
+if old_note:
+    meta['verified_by_me']['note'] = old_note
 json.dump(meta, open(os.path.join(dst, 'meta.json'), 'w'), indent=1)
 ok = ('782 passed' in suite) and ('failed' in res.get('demo with change', '')) and ('failed' not in res.get('demo without change', ''))
 print('KEPT', dst, 'valid=', ok, 'detected=', detected)
